@@ -12,6 +12,9 @@ import KafkaVerif.Lemmas.GroupBalancer
 import KafkaVerif.Lemmas.RackAffinity
 import KafkaVerif.Gen.GroupBalancerSel
 import KafkaVerif.Lemmas.GroupGlue
+import KafkaVerif.Lemmas.GroupWire
+import KafkaVerif.Lemmas.GroupRound
+import KafkaVerif.Model.GroupRun
 
 namespace KV.C14
 open KV.GroupBalancer KV.Spec.GroupAssign
@@ -34,36 +37,42 @@ example : rrAssign exMembers exParts 1 10 = [0, 3] ∧ rrAssign exMembers exPart
 (`Gen/GroupBalancerSel.lean` is re-emitted from the source text by go/extract on every run) -/
 
 theorem range_sel_regenerated (M P i j : Nat) :
-    rangeSel M P i j = Gen.GroupBalancer.rangeCond (partitionIndex := j)
-      (minIndex := Gen.GroupBalancer.rangeMin (memberIndex := i) (partitionCount := P) (memberCount := M))
-      (maxIndex := Gen.GroupBalancer.rangeMax (memberIndex := i) (partitionCount := P) (memberCount := M)) := rfl
+    rangeSel M P i j = Gen.GroupBalancer.rangeCond (memberIndex := i) (partitionIndex := j) (memberCount := M)
+      (partitionCount := P) := rfl
 
-theorem rr_sel_regenerated (M i j : Nat) :
-    rrSel M i j = Gen.GroupBalancer.rrCond (partitionIndex := j) (memberCount := M) (memberIndex := i) := rfl
+theorem rr_sel_regenerated (M P i j : Nat) :
+    rrSel M i j = Gen.GroupBalancer.rrCond (memberIndex := i) (partitionIndex := j) (memberCount := M)
+      (partitionCount := P) := rfl
 
-/-- `sortById` meets the contract of `sort.Slice` for the comparator written in `findMembersByTopic`: the result is
-a permutation without inversions -/
+/-- `sortById` meets the contract of `sort.Slice` for the comparator written in `findMembersByTopic` (which compares
+elements i and j of the very slice being sorted): the result is a permutation without inversions -/
 theorem sort_regenerated (l : List Member) :
     (sortById l).Perm l ∧
-    (sortById l).Pairwise (fun a b => Gen.GroupBalancer.sortLess (members_i_ID := b.id) (members_j_ID := a.id) = false) := by
+    (sortById l).Pairwise (fun a b => Gen.GroupBalancer.sortLess (elem_i_ID := b.id) (elem_j_ID := a.id) = false) := by
   refine ⟨sortById_perm l, (sortById_sorted l).imp ?_⟩
   intro a b h
   simp [Gen.GroupBalancer.sortLess]; omega
 
-/-- the arithmetic of `assignTopic` as written in the source is the arithmetic of `rackAssignTopic` / `zoneAlloc` -/
-theorem rack_arith_regenerated (P M L C T lo rem : Nat) :
-    Gen.GroupBalancer.rackTarget (len_partitions := P) (len_members := M) = P / M ∧
-    Gen.GroupBalancer.rackRemainder (len_partitions := P) (len_members := M) = P % M ∧
-    Gen.GroupBalancer.rackPartsPerMember (len_parts := L) (len_consumers := C) = L / C ∧
-    Gen.GroupBalancer.cap_partsPerMember_targetPerMember (partsPerMember := L / C) (targetPerMember := T) = decide (L / C > T) ∧
-    Gen.GroupBalancer.cap_leftover_remainder (leftover := lo) (remainder := rem) = decide (lo > rem) ∧
-    Gen.GroupBalancer.cap_leftover_len_consumers (leftover := lo) (len_consumers := C) = decide (lo > C) :=
-  ⟨rfl, rfl, rfl, rfl, rfl, rfl⟩
+/-- the arithmetic of `assignTopic` as written in the source is the arithmetic of `rackAssignTopic` / `zoneAlloc`
+(roles: nZoneParts / nZoneConsumers = lengths of the zone's partitions / consumers, ppm, leftover, target, remainder) -/
+theorem rack_arith_regenerated (P M L C : Nat) :
+    Gen.GroupBalancer.rackTarget (nPartitions := P) (nMembers := M) = P / M ∧
+    Gen.GroupBalancer.rackRemainder (nPartitions := P) (nMembers := M) = P % M ∧
+    Gen.GroupBalancer.rackPartsPerMember (nZoneParts := L) (nZoneConsumers := C) = L / C ∧
+    Gen.GroupBalancer.rackCaps =
+      ["if decide (ppm > target) then ppm := target",
+       "under (ppm == target): if decide (leftover > remainder) then leftover := remainder",
+       "under (ppm == target): if decide (leftover > nZoneConsumers) then leftover := nZoneConsumers",
+       "under (ppm == target): remainder -= leftover"] :=
+  ⟨rfl, rfl, rfl, by decide⟩
 
-/-- structure of the source that the models rely on: both member-by-topic loops skip repeated topics through
+/-- structure of the source that the models rely on: the Range / RoundRobin loops are the plain triple loop without
+early exits, every value of the map `findMembersByTopic` returns is sorted, both member-by-topic loops skip repeated topics through
 `topicListedBefore` (modelled by `firstListings`), and `makeSyncGroupRequestV0` allocates the per-member map inside
 the loop over the members (modelled by `syncRequest` calling `toTopics32` afresh per member) -/
 theorem structure_regenerated :
+    Gen.GroupBalancer.plainSelectionLoops = ["RangeGroupBalancer.AssignGroups", "RoundRobinGroupBalancer.AssignGroups"] ∧
+    Gen.GroupBalancer.sortsEveryMapValue = true ∧
     Gen.GroupBalancer.topicGuardSites = ["findMembersByTopic", "RackAffinityGroupBalancer.AssignGroups"] ∧
     Gen.GroupBalancer.topicListedBeforeIsPrefixSearch = true ∧
     Gen.GroupBalancer.topics32FreshPerMember = true := by decide
@@ -488,6 +497,219 @@ theorem rack_delivered (ρ : TopicMap → TopicMap) (hρ : ∀ l, (ρ l).Perm l)
     (fun t => ⟨rack_cover ms ps σ₁ σ₂ h t (h1 t) (h2 t), rack_balanced ms ps σ₁ σ₂ h t (h1 t) (h2 t)⟩)
     (fun t => rack_only_subscribers ms ps σ₁ σ₂ h t (h1 t) (h2 t)) t ht
 
+/-- the last step on the member: `Generation.Assignments` (built by `makeAssignments` from the member's own topic
+list) is exactly what was delivered to it — the only thing `makeAssignments` can drop is a topic the member does not
+subscribe to, and by only-subscribers nothing of such a topic was delivered -/
+theorem generation_view_is_delivered (ρ : TopicMap → TopicMap) (ms : List Member) (a : Asg) (ids ts : List Nat)
+    (h : WellFormed ms) (ho : ∀ t id, OnlySubscribersAt ms (delivered ρ a ids ts) t id) (m : Member) (hm : m ∈ ms) (t : Nat) :
+    generationView ρ (mapOf a ids ts) m.id m.topics t = delivered ρ a ids ts t m.id := by
+  rw [generationView_eq]
+  by_cases ht : t ∈ m.topics
+  · simp [ht, delivered]
+  · simp only [ht, if_false]
+    symm
+    apply ho t m.id
+    intro m' hm' e
+    have hm'' := List.mem_filter.mp hm'
+    have : m' = m := eq_of_id_eq ms (wf_split h) m' hm''.1 m hm e
+    subst this
+    exact ht (by simpa using hm''.2)
+
+/-- the leader asks the cluster for exactly the topics somebody subscribes to (`extractTopics`), so for every subscribed
+topic the balancer is given exactly the cluster's partitions of that topic (`ReadsTopics` = what `readPartitions` returns) -/
+theorem glue_partitions (ms : List Member) (cluster got : List Part) (hread : ReadsTopics cluster (extractTopics ms) got)
+    (t : Nat) (hs : subscribers ms t ≠ []) :
+    partsOf t got = partsOf t cluster ∧ ∀ z, ledIn got t z = ledIn cluster t z := by
+  obtain ⟨m, hm⟩ := List.exists_mem_of_ne_nil _ hs
+  have hm' := List.mem_filter.mp hm
+  exact hread t ((mem_extractTopics ms t).mpr ⟨m, hm'.1, by simpa using hm'.2⟩)
+
+example (cluster : List Part) (ms : List Member) : ReadsTopics cluster (extractTopics ms) (readPartitions cluster (extractTopics ms)) :=
+  readPartitions_reads cluster _
+
+/-- one whole rebalance round seen from the cluster: the leader decodes the members' metadata (`glue_members`), reads the
+partitions of the subscribed topics, applies the balancer, encodes; every member decodes its own bytes.  C14 holds of
+what the members receive *with respect to the cluster's partition listing*. -/
+theorem round_good (ρ : TopicMap → TopicMap) (hρ : ∀ l, (ρ l).Perm l) (ms : List Member) (cluster got : List Part)
+    (hread : ReadsTopics cluster (extractTopics ms) got) (a : Asg) (ids ts : List Nat) (t : Nat)
+    (hd : GoodAt ms got (delivered ρ a ids ts) t) : GoodAt ms cluster (delivered ρ a ids ts) t := by
+  refine ⟨fun hs => ?_, hd.2⟩
+  have := hd.1 hs
+  unfold CoverAt at this ⊢
+  rw [← (glue_partitions ms cluster got hread t hs).1]
+  exact this
+
+theorem range_round (ρ : TopicMap → TopicMap) (hρ : ∀ l, (ρ l).Perm l) (ms : List Member) (cluster got : List Part)
+    (h : WellFormed ms) (hread : ReadsTopics cluster (extractTopics ms) got)
+    (ids ts : List Nat) (hts : ts.Nodup) (hr : ∀ p ∈ got, InInt32 p.id) (hids : ∀ m ∈ ms, m.id ∈ ids) (t : Nat) (ht : t ∈ ts) :
+    GoodAt ms cluster (delivered ρ (rangeAssign ms got) ids ts) t ∧
+      ∀ id, OnlySubscribersAt ms (delivered ρ (rangeAssign ms got) ids ts) t id :=
+  have hd := range_delivered ρ hρ ms got h ids ts hts hr hids t ht
+  ⟨round_good ρ hρ ms cluster got hread _ ids ts t hd.1, hd.2⟩
+
+theorem rr_round (ρ : TopicMap → TopicMap) (hρ : ∀ l, (ρ l).Perm l) (ms : List Member) (cluster got : List Part)
+    (h : WellFormed ms) (hread : ReadsTopics cluster (extractTopics ms) got)
+    (ids ts : List Nat) (hts : ts.Nodup) (hr : ∀ p ∈ got, InInt32 p.id) (hids : ∀ m ∈ ms, m.id ∈ ids) (t : Nat) (ht : t ∈ ts) :
+    GoodAt ms cluster (delivered ρ (rrAssign ms got) ids ts) t ∧
+      ∀ id, OnlySubscribersAt ms (delivered ρ (rrAssign ms got) ids ts) t id :=
+  have hd := rr_delivered ρ hρ ms got h ids ts hts hr hids t ht
+  ⟨round_good ρ hρ ms cluster got hread _ ids ts t hd.1, hd.2⟩
+
+theorem rack_round (ρ : TopicMap → TopicMap) (hρ : ∀ l, (ρ l).Perm l) (ms : List Member) (cluster got : List Part)
+    (σ₁ σ₂ : Nat → List Nat) (h : WellFormed ms) (hread : ReadsTopics cluster (extractTopics ms) got)
+    (h1 : ∀ t, IterOrder got t (σ₁ t)) (h2 : ∀ t, IterOrder got t (σ₂ t))
+    (ids ts : List Nat) (hts : ts.Nodup) (hr : ∀ p ∈ got, InInt32 p.id) (hids : ∀ m ∈ ms, m.id ∈ ids) (t : Nat) (ht : t ∈ ts) :
+    GoodAt ms cluster (delivered ρ (rackAsg ms got σ₁ σ₂) ids ts) t ∧
+      ∀ id, OnlySubscribersAt ms (delivered ρ (rackAsg ms got σ₁ σ₂) ids ts) t id :=
+  have hd := rack_delivered ρ hρ ms got σ₁ σ₂ h h1 h2 ids ts hts hr hids t ht
+  ⟨round_good ρ hρ ms cluster got hread _ ids ts t hd.1, hd.2⟩
+
 end Glue
+
+/-! ## 7. The two payloads at byte level (joingroup.go `groupMetadata`, syncgroup.go `groupAssignment`, read.go,
+write.go): what is read back is what was written
+
+This is what justifies the abstraction of §6 ("the wire is the sequence of entries in the order written; metadata
+passes topics and user data through unchanged"): for every well-formed value (lengths and integers fit their wire
+fields) the real reader functions, modelled in the size-threading reader monad of Base/Reader.lean, return exactly the
+written entries / topics in order, consume exactly the written bytes and leave the size counter at 0 — whatever
+follows on the connection. -/
+section Bytes
+open KV.GroupWire
+
+/-- `makeSyncGroupRequestV0` writes `groupAssignment{Version: 1, Topics: topics32}` (UserData nil); `syncGroup` reads it -/
+theorem assignment_bytes_roundtrip (es : List (Bytes × List Int)) (hn : es.length < 2147483648)
+    (he : ∀ e ∈ es, WFEntry e) (rest : Bytes) :
+    readAssignment ⟨writeAssignment ⟨1, es, none⟩ ++ rest, (writeAssignment ⟨1, es, none⟩).length⟩ =
+      (.ok (1, es, []), ⟨rest, 0⟩) :=
+  readAssignment_write ⟨1, es, none⟩ ⟨by unfold Fits; constructor <;> simp, hn, he, by simp [optLen]⟩ rest
+
+/-- `makeJoinGroupRequest` writes `groupMetadata{Version: 1, Topics: config.Topics, UserData: balancer.UserData()}`;
+`makeMemberProtocolMetadata` reads it: same topics in the same order (repeats included), same user data (nil = empty) -/
+theorem metadata_bytes_roundtrip (topics : List Bytes) (userData : Option Bytes) (hn : topics.length < 2147483648)
+    (ht : ∀ t ∈ topics, t.length < 32768) (hu : optLen userData < 2147483648) (rest : Bytes) :
+    readMetadata ⟨writeMetadata ⟨1, topics, userData⟩ ++ rest, (writeMetadata ⟨1, topics, userData⟩).length⟩ =
+      (.ok (1, topics, userData.getD []), ⟨rest, 0⟩) :=
+  readMetadata_write ⟨1, topics, userData⟩ ⟨by unfold Fits; constructor <;> simp, hn, ht, hu⟩ rest
+
+/-- the bytes a member is sent carry exactly the abstract wire of §6: with any naming of the topic keys, the entries
+`syncRequest` lists for a member are read back in order -/
+theorem sync_bytes_carry_wire (name : Nat → Bytes) (hname : ∀ t, (name t).length < 32768) (w : KV.GroupGlue.Wire)
+    (hn : w.length < 2147483648) (hv : ∀ e ∈ w, e.2.length < 2147483648 ∧ FitsAll e.2) (rest : Bytes) :
+    let es := w.map fun e => (name e.1, e.2)
+    readAssignment ⟨writeAssignment ⟨1, es, none⟩ ++ rest, (writeAssignment ⟨1, es, none⟩).length⟩ =
+      (.ok (1, es, []), ⟨rest, 0⟩) := by
+  intro es
+  apply assignment_bytes_roundtrip es (by simpa [es] using hn) _ rest
+  intro e he
+  obtain ⟨x, hx, rfl⟩ := List.mem_map.mp he
+  exact ⟨hname x.1, (hv x hx).1, (hv x hx).2⟩
+
+example : WFEntry ([116, 48], [0, 1, -5]) := by
+  refine ⟨by decide, by decide, ?_⟩
+  intro v hv
+  simp at hv
+  rcases hv with rfl | rfl | rfl <;> (unfold Fits; constructor <;> simp)
+example : (readAssignment ⟨writeAssignment ⟨1, [([116, 48], [0, 7])], none⟩ ++ [9], 26⟩).2 = ⟨[9], 0⟩ ∧
+    writeAssignment ⟨1, [([116, 48], [0, 7])], none⟩ =
+      [0, 1, 0, 0, 0, 1, 0, 2, 116, 48, 0, 0, 0, 2, 0, 0, 0, 0, 0, 0, 0, 7, 255, 255, 255, 255] := by decide
+
+end Bytes
+
+/-! ## 8. The concurrent life cycle: N members, any number of rebalances, any interleaving
+
+Model/GroupRound.lean: every member runs `joining → (leader: assigning) → syncing → running(generation, assignment)`
+interleaved with the others and with a coordinator that completes join rounds, stores the leader's assignment per
+generation and answers SyncGroup per (member id, generation id).  One member's control flow is C15's GroupRun LTS; the
+three steps used here are steps of that LTS (`round_steps_are_grouprun_steps`), whose guards tie the SyncGroup to the
+ids of the JoinGroup answer. -/
+section Round
+open KV.GroupRound KV.GroupGlue
+
+/-- every running generation, in every reachable state, holds its own part of the one assignment that the leader of
+ITS generation id computed from THAT generation's member list and the cluster's partitions of the subscribed topics -/
+theorem generation_from_its_round (P : Params) (s : St) (h : Reachable P s) (m gid : Nat) (asg : TopicMap)
+    (hp : s.pc m = .running gid asg) :
+    ∃ r ∈ s.rounds, ∃ x, r.gid = gid ∧ (∃ y ∈ r.ms, y.id = m) ∧ findStored s gid = some x ∧
+      x.asg = P.balance r.ms x.got ∧ ReadsTopics P.cluster (extractTopics r.ms) x.got ∧
+      asg = received P.ρ x.asg m :=
+  running_from_round P s h m gid asg hp
+
+/-- the Go map a balancer returns for the members `ms`, as the balancer parameter of the round model -/
+def balanceOf (b : List Member → List Part → Asg) : List Member → List Part → Assignments :=
+  fun ms got => mapOf (b ms got) (ms.map (·.id)) (extractTopics ms)
+
+/-- C14 across the life cycle, for a balancer `b` that satisfies C14 on one call: in every reachable state all running
+generations with generation id `gid` hold parts of one assignment `d` that covers the cluster's partitions of every
+subscribed topic exactly once among the members of generation `gid`, evenly, and gives nothing to non-subscribers -/
+theorem lifecycle_good (b : List Member → List Part → Asg) (cluster : List Part) (ρ : TopicMap → TopicMap)
+    (hρ : ∀ l, (ρ l).Perm l)
+    (hb : ∀ ms got, WellFormed ms → ∀ t, GoodAt ms got (b ms got) t ∧ ∀ id, OnlySubscribersAt ms (b ms got) t id)
+    (hc : ∀ p ∈ cluster, InInt32 p.id)
+    (s : St) (h : Reachable ⟨balanceOf b, cluster, ρ⟩ s) (gid : Nat) :
+    (∀ m asg, s.pc m ≠ .running gid asg) ∨
+    ∃ r ∈ s.rounds, r.gid = gid ∧ ∃ got, ReadsTopics cluster (extractTopics r.ms) got ∧
+      let d := delivered ρ (b r.ms got) (r.ms.map (·.id)) (extractTopics r.ms)
+      (∀ m asg, s.pc m = .running gid asg → (∃ y ∈ r.ms, y.id = m) ∧ ∀ t, (mapGet t asg).getD [] = d t m) ∧
+      (WellFormed r.ms → (∀ p ∈ got, InInt32 p.id) →
+        ∀ t ∈ extractTopics r.ms, GoodAt r.ms cluster d t ∧ ∀ id, OnlySubscribersAt r.ms d t id) := by
+  by_cases hex : ∃ m asg, s.pc m = .running gid asg
+  · right
+    obtain ⟨m0, asg0, hp0⟩ := hex
+    obtain ⟨r, hr, x, hg, _, hx, hxa, hread, _⟩ := generation_from_its_round _ s h m0 gid asg0 hp0
+    refine ⟨r, hr, hg, x.got, hread, ?_, ?_⟩
+    · intro m asg hp
+      obtain ⟨r', hr', x', hg', hm', hx', hxa', _, ha'⟩ := generation_from_its_round _ s h m gid asg hp
+      have inv := inv_reachable _ s h
+      have : r' = r := round_unique _ s inv r' r hr' hr (by rw [hg', hg])
+      subst this
+      rw [hx] at hx'; injection hx' with hx'; subst hx'
+      refine ⟨hm', fun t => ?_⟩
+      rw [ha', hxa]; rfl
+    · intro hw hgot t ht
+      have hd := glue_good ρ hρ r.ms x.got (b r.ms x.got) (r.ms.map (·.id)) (extractTopics r.ms)
+        (extractTopics_nodup r.ms) hgot (fun y hy => List.mem_map.mpr ⟨y, hy, rfl⟩)
+        (fun t => (hb r.ms x.got hw t).1) (fun t => (hb r.ms x.got hw t).2) t ht
+      exact ⟨round_good ρ hρ r.ms cluster x.got hread _ _ _ t hd.1, hd.2⟩
+  · left
+    intro m asg hp
+    exact hex ⟨m, asg, hp⟩
+
+/-- the three balancers satisfy the hypothesis `hb` of `lifecycle_good` (RackAffinity: for every pair of iteration
+orders of its maps) -/
+theorem range_call_good (ms : List Member) (got : List Part) (h : WellFormed ms) (t : Nat) :
+    GoodAt ms got (rangeAssign ms got) t ∧ ∀ id, OnlySubscribersAt ms (rangeAssign ms got) t id :=
+  ⟨⟨range_cover ms got h t, range_balanced ms got h t⟩, range_only_subscribers ms got h t⟩
+
+theorem rr_call_good (ms : List Member) (got : List Part) (h : WellFormed ms) (t : Nat) :
+    GoodAt ms got (rrAssign ms got) t ∧ ∀ id, OnlySubscribersAt ms (rrAssign ms got) t id :=
+  ⟨⟨rr_cover ms got h t, rr_balanced ms got h t⟩, rr_only_subscribers ms got h t⟩
+
+theorem rack_call_good (σ₁ σ₂ : List Part → Nat → List Nat)
+    (h1 : ∀ got t, IterOrder got t (σ₁ got t)) (h2 : ∀ got t, IterOrder got t (σ₂ got t))
+    (ms : List Member) (got : List Part) (h : WellFormed ms) (t : Nat) :
+    GoodAt ms got (rackAsg ms got (σ₁ got) (σ₂ got)) t ∧ ∀ id, OnlySubscribersAt ms (rackAsg ms got (σ₁ got) (σ₂ got)) t id :=
+  ⟨⟨rack_cover ms got _ _ h t (h1 got t) (h2 got t), rack_balanced ms got _ _ h t (h1 got t) (h2 got t)⟩,
+   rack_only_subscribers ms got _ _ h t (h1 got t) (h2 got t)⟩
+
+/-- the member-local steps of the round model are steps of C15's GroupRun LTS (consumergroup.go `run` goroutine):
+JoinGroup answered → leader reads partitions → SyncGroup answered with the member id and generation id of the JoinGroup
+answer (the guard `mi == s.jm && gi == s.jg`), which is what lets the coordinator answer with the right generation's
+assignment -/
+theorem round_steps_are_grouprun_steps (c : KV.Group.Cfg) (g : KV.Group.St) (m : String) (gid : Int) (leader : Bool)
+    (hj : g.pc = .joining) :
+    let g1 : KV.Group.St := { g with jm := m, jg := gid, pc := if leader then .assigning else .syncing }
+    KV.Group.step c g (.joinOk g.member m gid leader) = some g1 ∧
+    (leader = true → KV.Group.step c g1 (.partsRes none) = some { g1 with pc := .syncing }) ∧
+    (∀ mi gi, KV.Group.step c { g1 with pc := .syncing } (.syncRes mi gi none) =
+      if mi = m ∧ gi = gid then some { g1 with pc := .fetching } else none) := by
+  refine ⟨by simp [KV.Group.step, hj], fun hl => by simp [KV.Group.step, hl], fun mi gi => ?_⟩
+  by_cases h : mi = m ∧ gi = gid
+  · simp [KV.Group.step, h]
+  · simp only [KV.Group.step, h, if_false]
+    have : ¬ (mi == m && gi == gid) = true := by simpa using h
+    simp [this]
+
+end Round
 
 end KV.C14
